@@ -321,6 +321,8 @@ def main(argv):
                     model_lines.append("KEYS " + kv)
                     model_expect.append((None, "ok"))
                     expect("S %s %s" % (hexd(sub), hexd(data)), ("subtract_lines", "subtrahend=%r" % sub[:60], data), res[0], res[1])
+                    if len(sub) + len(data) < 3000:
+                        expect("SR %s %s" % (hexd(sub), hexd(data)), ("subtract_lines(complete model, Murmur keys from the C14 model)", "subtrahend=%r" % sub[:60], data), res[0], res[1])
                     i += 1
                 for (rem, data, kind), res in zip(cc_cases, cc_results):
                     names = klines[i][4:].split()
@@ -328,6 +330,8 @@ def main(argv):
                     model_lines.append("KEYS " + kv)
                     model_expect.append((None, "ok"))
                     expect("C %s %s" % (hexd(rem or b""), hexd(data)), ("commoncrawl_dedupe", "removal=%r" % (rem[:60] if rem else rem), data), res[0], res[1])
+                    if len(rem or b"") + len(data) < 3000:
+                        expect("CR %s %s" % (hexd(rem or b""), hexd(data)), ("commoncrawl_dedupe(complete model, Murmur keys from the C14 model)", "removal=%r" % (rem[:60] if rem else rem), data), res[0], res[1])
                     i += 1
                 # the model's UTF-8 predicate and StripSpaces against the library functions directly
                 probe = sorted(set(gen_line(rng, 5) for _ in range(400)) | set(PIECES))
